@@ -164,6 +164,93 @@ def WrapKeepsText (wrap : Str → List Str) : Prop := ∀ line, nonws (wrap line
 /-- textwrap's contract, part 2 (`break_long_words=True`): no produced line is longer than the width -/
 def WrapFits (wrap : Str → List Str) (width : Nat) : Prop := ∀ line, ∀ l ∈ wrap line, l.length ≤ width
 
+/-! ## striptags — filters.py:1047-1052 → `Markup.striptags` (markupsafe 3.0: two find/cut loops, then
+  `" ".join(value.split())`, then `unescape`; modelled for text without `&`, where `unescape` is the identity) -/
+
+/-- split at the first occurrence of `pat`: `(before, after)`; `none` if `pat` does not occur (`str.find == -1`) -/
+def splitFirst (pat : Str) : Str → Option (Str × Str)
+  | [] => if pat.isEmpty then some ([], []) else none
+  | c :: cs =>
+    if pat.isPrefixOf (c :: cs) then some ([], (c :: cs).drop pat.length)
+    else (splitFirst pat cs).map fun ab => (c :: ab.1, ab.2)
+
+/-- one round of `while (start := value.find(open)) != -1: if (end := value.find(close, start)) == -1: break;
+    value = value[:start] + value[end + len(close):]` — `none` = the loop stops -/
+def stripStep (opn close : Str) (s : Str) : Option Str :=
+  match splitFirst opn s with
+  | none => none
+  | some (a, _) =>
+    match splitFirst close (s.drop a.length) with
+    | none => none
+    | some (_, b) => some (a ++ b)
+
+/-- the whole loop (it searches from the start of the shortened text again); the length guard only serves termination,
+    it is always true for a non-empty `close` (`stripStep_shorter`) -/
+def stripAll (opn close : Str) (s : Str) : Str :=
+  match stripStep opn close s with
+  | none => s
+  | some s' => if s'.length < s.length then stripAll opn close s' else s
+termination_by s.length
+
+/-- `value.split()`: the maximal runs of non-whitespace characters; `cur` is the current run, reversed -/
+def splitWsAux : Str → Str → List Str
+  | [], cur => if cur.isEmpty then [] else [cur.reverse]
+  | c :: cs, cur =>
+    if isPySpace c then (if cur.isEmpty then splitWsAux cs [] else cur.reverse :: splitWsAux cs [])
+    else splitWsAux cs (c :: cur)
+
+def splitWs (s : Str) : List Str := splitWsAux s []
+
+/-- `" ".join(value.split())` -/
+def collapse (s : Str) : Str := joinWith [' '] (splitWs s)
+
+/-- `do_striptags` on plain text without `&`: comments, then tags, then whitespace -/
+def striptags (s : Str) : Str :=
+  collapse (stripAll ['<'] ['>'] (stripAll ['<', '!', '-', '-'] ['-', '-', '>'] s))
+
+/-! ## format — filters.py:1034-1039: `soft_str(value) % args` for positional arguments and the directives
+  `%s`, `%d`, `%%` (CPython's left-to-right scan; errors are raised where the scan meets them) -/
+
+/-- an argument as the format operator sees it: its `str()` and, if it is a number, its `%d` rendering
+    (both produced by Python: number formatting is a parameter of the model) -/
+structure FmtArg where
+  s : Str
+  d : Option Str
+  deriving Repr, DecidableEq
+
+inductive FmtRes where
+  | ok (out : Str)
+  | typeError        -- not enough arguments / `%d` of a non-number / not all arguments converted
+  | valueError       -- incomplete format (`%` at the end)
+  | oom              -- a directive outside the modelled subset
+  deriving Repr, DecidableEq
+
+def FmtRes.cons (c : Str) : FmtRes → FmtRes
+  | .ok out => .ok (c ++ out)
+  | e => e
+
+def formatGo : Str → List FmtArg → FmtRes
+  | [], [] => .ok []
+  | [], _ :: _ => .typeError                      -- not all arguments converted
+  | '%' :: [], _ => .valueError                   -- incomplete format
+  | '%' :: '%' :: rest, args => (formatGo rest args).cons ['%']
+  | '%' :: 's' :: rest, args =>
+    match args with
+    | [] => .typeError                            -- not enough arguments
+    | a :: as => (formatGo rest as).cons a.s
+  | '%' :: 'd' :: rest, args =>
+    match args with
+    | [] => .typeError
+    | a :: as =>
+      match a.d with
+      | none => .typeError                        -- %d format: a real number is required
+      | some d => (formatGo rest as).cons d
+  | '%' :: _ :: _, _ => .oom
+  | c :: rest, args => (formatGo rest args).cons [c]
+
+/-- `do_format(value, *args)` with positional arguments only -/
+def format (fmt : Str) (args : List FmtArg) : FmtRes := formatGo fmt args
+
 /-! ## filesizeformat: unit selection — filters.py:706-730
 
   `bytes` is the float value as an exact rational `num/den` (`den > 0`); every finite float is one. -/
@@ -221,8 +308,23 @@ def doFloat (handler : List String) (r : Row) : ConvOut :=
   | .ok => .value
   | .raises mro => if catches handler mro then .default else .raises (mro.headD "?")
 
+open JinjaV.Gen.ConvertTable in
+/-- what `|int` does on a row of the measured table, with the handlers READ from filters.py -/
+def intOut (r : Row) : ConvOut := doInt intOuterCaught intInnerCaught r
+
+open JinjaV.Gen.ConvertTable in
+/-- what `|float` does on a row of the measured table, with the handler READ from filters.py -/
+def floatOut (r : Row) : ConvOut := doFloat floatCaught r
+
 def ConvOut.isRaise : ConvOut → Bool
   | .raises _ => true
   | _ => false
+
+open JinjaV.Gen.ConvertTable in
+/-- counterexample finder for `convert_total`: the (filter, sample, base, class) rows on which an exception escapes -/
+def escapingRows : List (String × String × Int × String) :=
+  rows.flatMap fun r =>
+    (match intOut r with | .raises c => [("int", r.name, r.base, c)] | _ => []) ++
+    (match floatOut r with | .raises c => [("float", r.name, r.base, c)] | _ => [])
 
 end JinjaV.FiltStr
